@@ -406,6 +406,30 @@ func init() {
 					&c15Replay{Property: "C15", Clause: "different-differ", Variant: fmt.Sprintf("label value of %d bytes", ln+1)})
 			}
 		}
+		// a large group (1100 members) with equal members far apart: first and last, and across every 256-member
+		// boundary; equal labels and URL collapse wherever the members sit
+		if c.Part == 0 {
+			idx++
+			g := &targetgroup.Group{Source: "big", Labels: model.LabelSet{"env": "prod"}}
+			const nBig = 1100
+			for i := 0; i < nBig; i++ {
+				g.Targets = append(g.Targets, model.LabelSet{model.AddressLabel: model.LabelValue(fmt.Sprintf("big-%d:9100", i))})
+			}
+			dups := 0
+			for i := 0; i < nBig; i += 256 {
+				g.Targets = append(g.Targets, model.LabelSet{model.AddressLabel: model.LabelValue(fmt.Sprintf("big-%d:9100", i))})
+				dups++
+			}
+			g.Targets = append(g.Targets, model.LabelSet{model.AddressLabel: "big-0:9100"})
+			dups++
+			m, n, prob := c15Hashes(c15JobText("", "", "", ""), []*targetgroup.Group{g}, 1)
+			r.States++
+			r.Transitions++
+			if prob != "" || n != nBig || len(m) != nBig {
+				r.Violate("C15:collapse:large-group", "equal-collapse", fmt.Sprintf("a group of %d distinct members plus %d repeats far apart: %d entries, %d distinct (labels, URL) (%s)", nBig, dups, n, len(m), prob), idx,
+					&c15Replay{Property: "C15", Clause: "equal-collapse", Variant: "1100 members, repeats at distance >= 256", Detail: prob})
+			}
+		}
 		// history: what the coordinator's explorer does between two rounds (it builds every target's URL from
 		// the job settings it shares with the discovery) must not influence the next round's hashes
 		for si, s := range sets {
